@@ -254,6 +254,9 @@ def do_call(c, O):
     if op in ("gufunc", "gunary", "garrfn", "gmethod"):
         generic_call(c, x, y)
         return None
+    if op == "gin":
+        gin_call(c, x, y, o, out_given=True)
+        return None
     raise ValueError("unknown op " + op)
 
 
@@ -329,6 +332,130 @@ def generic_call(c, x, y):
             raise ValueError(f)
 
 
+def gin_call(c, x, y, o, out_given):
+    """generic in-place family of Frame.tla; out_given=False performs the same call without out= and returns the result
+    (the corresponding copying call, used as twin for the plain variant)"""
+    np = _U["np"]
+    f, e = c["f"], c["e"]
+    tgt = o if o is not None else x
+    ro = e == "ro" and out_given
+    if ro:
+        tgt.flags.writeable = False
+    try:
+        return _gin(np, f, e, x, y, o if out_given else None, tgt)
+    finally:
+        if ro:
+            tgt.flags.writeable = True
+
+
+def _gin(np, f, e, x, y, o, tgt):
+    kw = {} if o is None else {"out": o}
+    n = tgt.size
+    mask = [True] + [False] * (n - 1)
+    # ---- out= forms, two operands
+    if f in ("dot", "outer"):
+        if e == "kw":
+            return np.dot(x, y, **kw, nosuchkeyword=1)
+        return getattr(np, f)(x, y, **kw)
+    if f in ("concatenate", "stack"):
+        return getattr(np, f)([x, y], **kw)
+    if f == "choose":
+        return np.choose([0, 5] if e == "oob" else [0, 1], [x, y], **kw)
+    if f == "clip":
+        return np.clip(x, y, y, **kw)
+    if f == "einsum":
+        return np.einsum("i,i->i", x, y, **kw)
+    if f == "m_dot":
+        return x.dot(y, **kw)
+    if f == "m_clip":
+        return x.clip(y, y, **kw)
+    if f in ("uf_add", "uf_mul", "uf_hypot"):
+        uf = {"uf_add": np.add, "uf_mul": np.multiply, "uf_hypot": np.hypot}[f]
+        if e == "castno":
+            return uf(x, y, casting="no", dtype="float32", **kw)
+        if e == "where":
+            return uf(x, y, where=mask, **kw)
+        if e == "tuple2":
+            return uf(x, y, out=(o, o))
+        return uf(x, y, **kw)
+    if f == "uf_outer":
+        return np.multiply.outer(x, y, **kw)
+    # ---- out= forms, one operand
+    if f == "around":
+        return np.around(x, **kw)
+    if f == "take":
+        return np.take(x, [0, 9] if e == "oob" else [0, 1], **kw)
+    if f == "m_take":
+        return x.take([0, 9] if e == "oob" else [0, 1], **kw)
+    if f in ("cumsum", "sum", "mean", "prod", "cumprod", "max"):
+        if e == "axis9":
+            return getattr(np, f)(x, axis=9, **kw)
+        return getattr(np, f)(x, **kw)
+    if f in ("m_cumsum", "m_sum", "m_round"):
+        return getattr(x, f[2:])(**kw)
+    if f == "uf_reduce":
+        return np.add.reduce(x, axis=9, **kw) if e == "axis9" else np.add.reduce(x, **kw)
+    if f == "uf_accumulate":
+        return np.add.accumulate(x, **kw)
+    if f in ("uf_negative", "uf_sqrt"):
+        uf = np.negative if f == "uf_negative" else np.sqrt
+        if e == "tuple2":
+            return uf(x, out=(o, o))
+        return uf(x, **kw)
+    # ---- forms whose target is x (a NumPy-level refusal never comes after a partial write in these spellings)
+    if f == "setitem_oob":
+        x[9] = y
+    elif f == "setitem_fancy_oob":
+        x[[5]] = y
+    elif f == "setitem_fancy":
+        x[[0]] = y
+    elif f == "setitem_mask_bad":
+        x[np.array([True] * (x.size + 1))] = y
+    elif f == "setitem_slice_shape":
+        x[0:1] = y
+    elif f == "put_oob":
+        np.put(x, [9], y)
+    elif f == "m_put":
+        x.put([0], y)
+    elif f == "m_put_oob":
+        x.put([9], y)
+    elif f == "place":
+        np.place(x, mask, y)
+    elif f == "place_badmask":
+        np.place(x, [True] * (x.size + 1), y)
+    elif f == "putmask_badmask":
+        np.putmask(x, [True] * (x.size + 1), y)
+    elif f == "put_along_axis":
+        np.put_along_axis(x, np.array([0]), y, 0)
+    elif f == "put_along_axis_oob":
+        np.put_along_axis(x, np.array([9]), y, 0)
+    elif f == "fill_diagonal_1d":
+        np.fill_diagonal(x, y)
+    elif f == "copyto_castno":
+        np.copyto(x, y, casting="no")
+    elif f == "copyto_where":
+        np.copyto(x, y, where=mask)
+    elif f == "copyto_where_bad":
+        np.copyto(x, y, where=[True] * (x.size + 1))
+    elif f == "m_fill":
+        x.fill(y)
+    elif f == "uf_at":
+        np.add.at(x, [0], y)
+    elif f == "uf_at_oob":
+        np.add.at(x, [9], y)
+    elif f == "convert_to_base":
+        x.convert_to_base()
+    elif f == "convert_to_cgs":
+        x.convert_to_cgs()
+    elif f == "m_sort":
+        x.sort()
+    elif f == "m_sort_axis9":
+        x.sort(axis=9)
+    else:
+        raise AssertionError("unmapped generic in-place form " + f)
+    return None
+
+
 TWIN = {
     "convert_to_units": "in_units",
     "convert_to_base": "in_base",
@@ -348,7 +475,39 @@ def _cp(o):
     return o
 
 
+def numpy_partial_write(c, O):
+    """generic in-place family only: the same spelling on BARE ndarray copies of the graph (V stays a view of A).
+    True iff plain NumPy raises AFTER having changed the target's numbers - then those numbers are NumPy's doing."""
+    np = _U["np"]
+    if c["op"] != "gin":
+        return False
+    A = np.array(np.asarray(O["A"]))
+    bare = {"A": A, "V": A[1:3]}
+    for s in ("B", "Q", "C", "R"):
+        if O.get(s) is not None:
+            bare[s] = np.array(np.asarray(O[s]))
+    try:
+        x = bare[c["x"]]
+        y = (2 if c["y"] == "two" else bare[c["y"]]) if c["y"] else None
+        o = bare[c["o"]] if c["o"] else None
+    except KeyError:
+        return False
+    tgt = o if o is not None else x
+    before = tgt.tobytes()
+    try:
+        gin_call(c, x, y, o, out_given=True)
+    except Exception:  # noqa: BLE001
+        return tgt.tobytes() != before
+    return False
+
+
 def twin(c, O, tk):
+    r = _twin(c, O, tk)
+    r["npw"] = numpy_partial_write(c, O)
+    return r
+
+
+def _twin(c, O, tk):
     """the corresponding copying call on copies of the operands -> {"ex", "n"}"""
     np = _U["np"]
     op = c["op"]
@@ -371,6 +530,9 @@ def twin(c, O, tk):
             return {"ex": False, "n": nums_of(r, tk)}
         if op == "copyto":
             return {"ex": False, "n": nums_of(_cp(operand(O, c["y"])), tk)}
+        if op == "gin" and c["o"] and c["e"] == "ok":
+            r = gin_call(c, _cp(operand(O, c["x"])), _cp(operand(O, c["y"])) if c["y"] else None, operand(O, c["o"]), out_given=False)
+            return {"ex": False, "n": nums_of(r, tk)}
     except Missing:
         raise
     except Exception:  # noqa: BLE001 - the copying call refused
